@@ -74,4 +74,7 @@ type ReplayFile struct {
 	Choices       []int           `json:"choices,omitempty"`
 	MinimisedFrom map[string]any  `json:"minimised_from,omitempty"`
 	DeathNote     string          `json:"death_note,omitempty"`
+	// BySeed: the file replays by regenerating the run from its seed (property, tier, seed) and executing it under
+	// the strategy the seed selects, instead of following Choices. Used when a recorded schedule cannot be followed.
+	BySeed bool `json:"by_seed,omitempty"`
 }
